@@ -11,6 +11,7 @@ import (
 	"sync"
 
 	"google.golang.org/protobuf/encoding/protojson"
+	"google.golang.org/protobuf/encoding/protowire"
 	"google.golang.org/protobuf/proto"
 	"google.golang.org/protobuf/reflect/protoreflect"
 	"pgregory.net/rapid"
@@ -195,8 +196,78 @@ func runC11(ctx *Ctx) {
 		}
 		return c
 	}, func(c *Case) error { return checkC11(ctx, c, 1) })
+	runC11Any(ctx, types, n/4+1)
 	runC11Deep(ctx)
 	runC11Big(ctx)
+}
+
+// runC11Any: the shared message holds a google.protobuf.Any that packs a
+// GENERATED type. Rendering it (protojson, String) expands the Any, i.e. runs
+// the payload type's generated DECODER inside a read-only operation: the only
+// way concurrent readers reach decoder-side state.
+func runC11Any(ctx *Ctx, types []*model.Type, n int) {
+	type site struct {
+		t  *model.Type
+		fd protoreflect.FieldDescriptor
+	}
+	var sites []site
+	for _, t := range types {
+		fds := t.Desc.Fields()
+		for i := 0; i < fds.Len(); i++ {
+			fd := fds.Get(i)
+			md := fd.Message()
+			if fd.IsMap() {
+				md = fd.MapValue().Message()
+			}
+			if md != nil && md.FullName() == "google.protobuf.Any" {
+				sites = append(sites, site{t, fd})
+			}
+		}
+	}
+	if len(sites) == 0 {
+		return
+	}
+	all := model.Types()
+	ctx.CheckRapid("any-readers", n, func(rt *rapid.T) *Case {
+		st := sites[rapid.IntRange(0, len(sites)-1).Draw(rt, "site")]
+		pt := all[rapid.IntRange(0, len(all)-1).Draw(rt, "payloadtype")]
+		cfg := ctx.streamCfg(false, true)
+		cfg.ListBurst = 3
+		payload := cfg.GenStream(rt, pt.Desc, 0)
+		if _, err := decodeD(pt, payload); err != nil {
+			return nil
+		}
+		anyb := protowire.AppendString(protowire.AppendTag(nil, 1, protowire.BytesType), "type.googleapis.com/"+string(pt.Name))
+		anyb = protowire.AppendBytes(protowire.AppendTag(anyb, 2, protowire.BytesType), payload)
+		var b []byte
+		reps := 1
+		if st.fd.IsList() {
+			reps = 2
+		}
+		for r := 0; r < reps; r++ {
+			rec := anyb
+			if st.fd.IsMap() {
+				rec = protowire.AppendBytes(protowire.AppendTag(nil, 2, protowire.BytesType), anyb)
+			}
+			b = protowire.AppendBytes(protowire.AppendTag(b, st.fd.Number(), protowire.BytesType), rec)
+		}
+		if _, err := decodeD(st.t, b); err != nil {
+			return nil
+		}
+		c := &Case{Sub: "anyreaders", Type: string(st.t.Name), Bytes: hexs(b), Args: map[string]string{"payload": string(pt.Name)}}
+		g := rapid.IntRange(2, 12).Draw(rt, "goroutines")
+		c.Args["procs"] = fmt.Sprint(rapid.SampledFrom([]int{2, 4, 16}).Draw(rt, "procs"))
+		for gi := 0; gi < g; gi++ {
+			for j, k := 0, rapid.IntRange(2, 6).Draw(rt, "nops"); j < k; j++ {
+				op := Op{H: gi, Op: rapid.SampledFrom([]string{"json", "string", "json", "string", "marshal", "canon", "equal"}).Draw(rt, "op")}
+				if rapid.IntRange(0, 3).Draw(rt, "yield") == 0 {
+					op.Note = "yield"
+				}
+				c.Ops = append(c.Ops, op)
+			}
+		}
+		return c
+	}, func(c *Case) error { return checkC11(ctx, c, 1) })
 }
 
 // runC11Big: shared messages far larger than the random ones (a 70 000-byte
